@@ -2,7 +2,7 @@
    packing, width schedule and CLEAR codes; the other codecs by differential). *)
 From Coq Require Import ZArith List Lia Bool.
 Import ListNotations.
-From LX Require Import Generated.Consts Model.Rle90 Proofs.Rle90Proofs Model.Lzw Proofs.LzwBitsProofs Proofs.LzwCodesProofs Model.Crc Model.Inflate Proofs.InflateCodesProofs Proofs.InflateStreamProofs Proofs.InflateGzipProofs Model.PP20 Proofs.PP20Proofs.
+From LX Require Import Generated.Consts Model.Rle90 Proofs.Rle90Proofs Model.Lzw Proofs.LzwBitsProofs Proofs.LzwCodesProofs Model.Crc Model.Inflate Proofs.InflateCodesProofs Proofs.InflateStreamProofs Proofs.InflateGzipProofs Model.PP20 Proofs.PP20Proofs Model.ArcLzw Proofs.ArcLzwProofs.
 Local Open Scope Z_scope.
 
 (* For every byte string - any length, any content, runs of any length, the marker byte itself anywhere - the RLE90
@@ -122,4 +122,30 @@ Example c08_pp_nonvacuous :
   let f := pp_pack_data [9; 10; 12; 13] data in
   eff_okb [9; 10; 12; 13] = true /\ Nat.eqb (length f mod 4) 0 = true /\ firstn 8 f = [80; 80; 50; 48; 9; 10; 12; 13] /\
   pp_unpack f = Some data /\ pp_unpack (firstn 8 f ++ [0; 0; 0; 0] ++ skipn 12 f) = None.
+Proof. vm_compute. repeat split; reflexivity. Qed.
+
+(* ---------------------------------------------------------------- the LZW methods of ARC / Spark / ArcFS ------------- *)
+
+(* For every non-empty byte string: the transcribed arc_unpack - codes read eight at a time with the rest of a group dropped when
+   the width grows, the table that is never erased, the KwKwK case, the declared output size - gives back what the model's writer
+   packed as "squashed" (method 9), as Spark "compressed" at any maximum width 9..16 (method 0xff) and as "crunched" (method 8:
+   the streaming RLE90 decoder over the 8 KiB blocks of the LZW output, its state carried across the blocks). *)
+Theorem arc_squashed_roundtrip : forall l, bytesb l = true -> l <> [] -> arc_unpack 9 (Z.of_nat (length l)) (pack_squashed l) = Some l.
+Proof. exact squashed_roundtrip. Qed.
+Print Assumptions arc_squashed_roundtrip.
+
+Theorem arc_compressed_roundtrip : forall maxw l, 9 <= maxw <= 16 -> bytesb l = true -> l <> [] ->
+  arc_unpack 127 (Z.of_nat (length l)) (pack_compressed maxw l) = Some l.
+Proof. exact compressed_roundtrip. Qed.
+Print Assumptions arc_compressed_roundtrip.
+
+Theorem arc_crunched_roundtrip : forall l, bytesb l = true -> l <> [] -> arc_unpack 8 (Z.of_nat (length l)) (pack_crunched Rle90.encode l) = Some l.
+Proof. exact crunched_roundtrip. Qed.
+Print Assumptions arc_crunched_roundtrip.
+
+Example c08_arc_nonvacuous :
+  let l := [97; 97; 97; 97; 97; 97; 98; 144; 144; 144; 144; 144; 99] in
+  arc_unpack 9 13 (pack_squashed l) = Some l /\ arc_unpack 8 13 (pack_crunched Rle90.encode l) = Some l /\
+  arc_unpack 127 13 (pack_compressed 9 l) = Some l /\ arc_unpack 9 14 (pack_squashed l) = None /\
+  arc_unpack 9 12 (pack_squashed l) = Some (firstn 12 l).
 Proof. vm_compute. repeat split; reflexivity. Qed.
